@@ -170,7 +170,12 @@ def vm_callee(ctx, opcode):
     for r in arm['paths']:
         if r['kind'] != 'continue':
             continue
+        found = False
         for c in r['calls']:
             if c['callee'].startswith('object::Object::') and len(c['args']) == 3 and c['callee'].split('::')[-1] not in ('float',):
                 res.add((c['callee'].split('::')[-1], tuple(c['args'][:2])))
+                found = True
+        if not found and res is not None:
+            # a path of the arm that produces its result without the object-layer method (an inline fast path)
+            res.add(('<inline>', ('?', '?')))
     return res
